@@ -214,21 +214,31 @@ def build_harness(feats, bins=("director",)):
 # ----------------------------------------------------------------------------- running scripts
 def _run_shard(binary, shard, timeout):
     """Run one shard; if the process dies or hangs, fall back to one script at a time and mark
-    the scripts that kill it (the observation file then says CRASH / HANG)."""
+    the scripts that kill it (the observation file then says CRASH / HANG).  After a few such
+    scripts the rest of the shard is not run (SKIPPED): a tree on which the director hangs has
+    given its failing inputs, and every further hang only costs its timeout."""
+    realtime = any("mode realtime" in open(f).read(300) for f in shard[:1])
+    per = 45 if realtime else 15
     try:
-        p = sh([binary] + shard, None, timeout)
+        p = sh([binary] + shard, None, min(timeout, 60 + per * len(shard)))
         if p.returncode == 0:
             return
     except subprocess.TimeoutExpired:
         pass
+    bad_seen = 0
     for f in shard:
         if os.path.exists(f + ".obs"):
             continue
-        try:
-            p = sh([binary, f], None, 60)
-            bad = None if p.returncode == 0 else "CRASH the director process died on this script (exit %d)" % p.returncode
-        except subprocess.TimeoutExpired:
-            bad = "HANG the director did not finish this script within 60 s"
+        if bad_seen >= 3:
+            bad = "SKIPPED the director was not run on this script: three earlier scripts of its shard crashed or hung"
+        else:
+            try:
+                p = sh([binary, f], None, per)
+                bad = None if p.returncode == 0 else "CRASH the director process died on this script (exit %d)" % p.returncode
+            except subprocess.TimeoutExpired:
+                bad = "HANG the director did not finish this script within %d s" % per
+            if bad:
+                bad_seen += 1
         if bad:
             open(f + ".obs", "w").write("R 1\n%s\nE\n" % bad)
             open(f + ".mon", "w").write(bad)
